@@ -79,32 +79,50 @@ def required(row):
     return []
 
 
-def row_violation(row):
-    """-> None | (key-suffix, what): the predicates of Spec/Ops.lean evaluated on one probed row."""
+# parameter elements that exist only under a capability: their presence on the wire requires the assertion (mirrors Spec/Ops.lean gatedParams)
+GATED_PARAMS = {'commit': [('confirmed', ':confirmed-commit'), ('confirm-timeout', ':confirmed-commit'), ('persist', ':confirmed-commit')],
+                'edit_config': [('test-option', ':validate')],
+                'get': [('with-defaults', ':with-defaults')], 'get_config': [('with-defaults', ':with-defaults')]}
+
+
+def row_violations(row):
+    """-> [(key-suffix, what)]: the predicates of Spec/Ops.lean evaluated on one probed row."""
+    out = []
     sent = row['outcome'] == 'sent'
     tag = '%s@%s[%s]' % (row['op'], row['profile'], row['shape'])
     if sent:
         exp = expected_op(row['op'], row['profile'])
         if not (row['nsent'] == 1 and row['rootNs'] == BASE and row['rootName'] == 'rpc' and row['hasMsgId'] and row['nOps'] == 1):
-            return ('shape', '%s: not exactly one <rpc> in the base namespace with message-id and one operation element' % tag)
+            out.append(('shape', '%s: not exactly one <rpc> in the base namespace with message-id and one operation element' % tag))
         if exp is None or (exp != 'any' and (row['opNs'], row['opName']) != exp):
-            return ('op-element', '%s: operation element {%s}%s, expected %s' % (tag, row['opNs'], row['opName'], exp))
+            out.append(('op-element', '%s: operation element {%s}%s, expected %s' % (tag, row['opNs'], row['opName'], exp)))
         if row['profile'] == 'default' and row['op'] in ORDER and not is_sublist(row['params'], ORDER[row['op']]):
-            return ('param-order', '%s: parameters %s not in RFC 6241 order %s' % (tag, row['params'], ORDER[row['op']]))
+            out.append(('param-order', '%s: parameters %s not in RFC 6241 order %s' % (tag, row['params'], ORDER[row['op']])))
         for name, n, no_tag, raw in row['sentinels']:
             if n != 1 or not no_tag or raw != 1:
-                return ('caller-string', '%s: caller string %r occurs %d times in text/attribute/tag positions (raw %d)%s' % (
-                    tag, name, n, raw, '' if no_tag else ', in a tag'))
+                out.append(('caller-string', '%s: caller string %r occurs %d times in text/attribute/tag positions (raw %d)%s' % (
+                    tag, name, n, raw, '' if no_tag else ', in a tag')))
     if row['outsider'] and (sent or row['nsent'] != 0):
-        return ('enumeration', '%s: argument outside its documented set was not rejected locally (%s, %d sent)' % (tag, row['outcome'], row['nsent']))
+        out.append(('enumeration', '%s: argument outside its documented set was not rejected locally (%s, %d sent)' % (tag, row['outcome'], row['nsent'])))
     if sent and row['capsMode'] == 'all':
         if set(row['asserted']) != set(required(row)):
-            return ('gating', '%s: asserts %s, documented dependencies %s' % (tag, sorted(set(row['asserted'])), sorted(set(required(row)))))
+            out.append(('gating', '%s: asserts %s, documented dependencies %s' % (tag, sorted(set(row['asserted'])), sorted(set(required(row))))))
+        for pname, cap in GATED_PARAMS.get(row['op'], []):
+            if pname in row['params'] and cap not in row['asserted']:
+                out.append(('gated-element', '%s: <%s> is on the wire but %s was not asserted' % (tag, pname, cap)))
         miss = [c for c in required(row) if c not in row['probedMinus']]
         if miss:
-            return ('gating-probe', '%s: documented dependency %s is never asserted' % (tag, miss))
+            out.append(('gating-probe', '%s: documented dependency %s is never asserted' % (tag, miss)))
     if row['capsMode'] != 'all':
         ok = row['outcome'] in ('exc:MissingCapabilityError', 'exc:WithDefaultsError') or (row['outcome'] == 'exc:OperationError' and row['outsider'])
         if not ok or row['nsent'] != 0:
-            return ('refusal', '%s with %s: %s, %d message(s) sent' % (tag, row['capsMode'], row['outcome'], row['nsent']))
+            out.append(('refusal', '%s with %s: %s, %d message(s) sent' % (tag, row['capsMode'], row['outcome'], row['nsent'])))
+    return out
+
+
+def row_violation(row, kinds=None):
+    """-> None | (key-suffix, what): the first violation (among `kinds`, when given)."""
+    for v in row_violations(row):
+        if kinds is None or v[0] in kinds:
+            return v
     return None
